@@ -12,6 +12,9 @@
     omitted_eq_explicit    ★  no conflict ⇒ `--flag=<documented default>` anywhere on the command line changes no
                               variable the command reads (any init order, any other options)
     explicit_default_no_effect / explicit_default_differs / conflict_observable   its core, and the converse
+    aliasRegion, explicit_default_overrides_alias, noAlias_hpre   the region `hpre` excludes (an alias of the option given
+                              earlier on the line), the conclusion is false there, and it is empty when no command sees two
+                              flags on one variable (Spec `noAliasInCommand`; false today: finding F87, table_noAliasInCommand_partial)
     spec_of_decisions / decisions_of_spec   the two per-run decisions are exactly the Spec predicate `tableOK`
     help_default_is_used(_except)   with the model of cobra 1.5's flag resolution (`effective` = the flag the command
                               line sets, `shown` = the flag whose line --help prints): the printed default is the value used
@@ -187,8 +190,9 @@ theorem decisions_of_spec (t : List Row) (h : tableOK t = true) :
 /-! ### "leaving an option out has the same effect as passing the default value shown in its help text" -/
 
 /-- if the variable of `r` holds the documented default of `r` once the `init()` functions ran, then
-    passing `--r=<documented default>` anywhere on the command line — after options `pre` that do not
-    bind the same variable, before any options `post` — changes nothing the command can read -/
+    passing `--r=<documented default>` on the command line — AFTER options `pre` NONE OF WHICH WRITES
+    THE SAME VARIABLE (`hpre`; the excluded region is `aliasRegion`: an alias of `r` given earlier,
+    see `explicit_default_overrides_alias`), before any options `post` — changes nothing the command can read -/
 theorem explicit_default_no_effect (regs : List Reg) (r : Reg) (h : finalValue regs r.var = some r.default)
     (pre post : List (Reg × String)) (hpre : ∀ g ∈ pre, g.1.var ≠ r.var) :
     ∀ v, reads (atRun regs (pre ++ (r, r.default) :: post)) v = reads (atRun regs (pre ++ post)) v := by
@@ -198,12 +202,46 @@ theorem explicit_default_no_effect (regs : List Reg) (r : Reg) (h : finalValue r
     rw [parse_untouched _ _ _ hpre]; exact h
   exact parse_congr (setFlag_same h1) post
 
-/-- ★ without a conflict, omitting an option = passing its documented default, for every flag,
-    every other option given, every variable read, and whatever order the `init()` functions ran in -/
+/-- ★ without a conflict, omitting an option = passing its documented default, for every flag, every
+    variable read, whatever order the `init()` functions ran in, and with any other options given —
+    provided no option given BEFORE it writes the same variable (`hpre`; false in `aliasRegion`) -/
 theorem omitted_eq_explicit (regs regs' : List Reg) (h : noConflict regs = true) (hp : regs'.Perm regs)
     (r : Reg) (hr : r ∈ regs) (pre post : List (Reg × String)) (hpre : ∀ g ∈ pre, g.1.var ≠ r.var) :
     ∀ v, reads (atRun regs' (pre ++ (r, r.default) :: post)) v = reads (atRun regs' (pre ++ post)) v :=
   explicit_default_no_effect regs' r (noConflict_any_order regs regs' h hp r hr) pre post hpre
+
+/-- the region the hypothesis `hpre` excludes: an option given earlier on the line writes the variable of `r` -/
+def aliasRegion (pre : List (Reg × String)) (r : Reg) : Prop := ∃ g ∈ pre, g.1.var = r.var
+
+/-- and in that region the conclusion is FALSE as soon as the earlier option gave another value:
+    the documented default of `r`, spelled out after an alias of `r`, overrides what the alias set
+    (`reformat --format nexus --input-format newick`) -/
+theorem explicit_default_overrides_alias (regs : List Reg) (g r : Reg) (x : String) (hv : g.var = r.var) (hx : x ≠ r.default) :
+    aliasRegion [(g, x)] r ∧
+    reads (atRun regs ([(g, x)] ++ [(r, r.default)])) r.var ≠ reads (atRun regs [(g, x)]) r.var := by
+  refine ⟨⟨(g, x), by simp, hv⟩, ?_⟩
+  unfold reads atRun
+  simp only [List.singleton_append, parse, setFlag, List.lookup_cons, beq_self_eq_true, hv]
+  intro he
+  exact hx (Option.some.inj he).symm
+
+/-- when no command sees two flags on one variable, options of ONE command never fall in that region:
+    the flags of another name visible to the command of `r` write other variables -/
+theorem noAlias_hpre (t : List Row) (h : noAliasInCommand t = true) (r : Row) (hr : r ∈ t)
+    (pre : List (Reg × String))
+    (hvis : ∀ g ∈ pre, g.1 ∈ t ∧ visibleTo r.path g.1 = true ∧ g.1.flag ≠ r.flag) :
+    ∀ g ∈ pre, g.1.var ≠ r.var := by
+  intro g hg hv
+  obtain ⟨hgt, hgv, hne⟩ := hvis g hg
+  have := List.all_eq_true.mp h r hr
+  simp only [List.contains_nil, Bool.false_or, List.isEmpty_iff] at this
+  have hmem : g.1 ∈ aliasesOf t r := by
+    unfold aliasesOf
+    refine List.mem_filter.mpr ⟨hgt, ?_⟩
+    simp only [Bool.and_eq_true, beq_iff_eq, bne_iff_ne, ne_eq]
+    exact ⟨⟨hv, hgv⟩, hne⟩
+  rw [this] at hmem
+  exact absurd hmem (List.not_mem_nil)
 
 /-- conversely a flag whose variable ended up with another value is one for which the explicit
     default is *not* the same as omitting it: the command reads something else -/
@@ -344,6 +382,13 @@ theorem table_help_default_is_used_partial (path flag : String)
     (hs : shown Gotree.Gen.C19Flags.table path flag = some s) : s.default = e.current :=
   help_default_is_used_except _ _ table_shadowAgree_partial table_current_is_default path flag hex e s he hs
 
+/-- Full statement, which does NOT hold on the current tree (open finding F87, see `noAlias_pinnedF87_fails`):
+      noAliasInCommand Gen.C19Flags.table = true
+    Proved: no command sees two flags on one variable, except `--input-format` of the `reformat` commands
+    (bound to the variable of the root's persistent `--format`). -/
+theorem table_noAliasInCommand_partial :
+    noAliasInCommandExcept [("gotree reformat", "input-format")] Gotree.Gen.C19Flags.table = true := by decide +kernel
+
 /-- the dumped state satisfies the whole Spec predicate (defaults used, shared variables agree, commands isolated) -/
 theorem table_satisfies_spec : tableOK Gotree.Gen.C19Flags.table = true :=
   spec_of_decisions _ table_noConflict table_current_is_default
@@ -400,6 +445,25 @@ theorem tableOK_pinned_fails : tableOK pinnedF24 = false := by decide
 theorem pinned_no_lucky_order (regs' : List Reg) (hp : regs'.Perm pinnedF24) :
     ∃ r ∈ pinnedF24, finalValue regs' r.var ≠ some r.default :=
   conflict_breaks_one _ _ (by decide) hp
+
+/-! ### pinned witness of finding F87: `reformat --input-format` is an alias of the root's `--format` -/
+
+def pinnedF87 : List Reg := [
+  ⟨"gotree", "format", "", true, 0, "string", "newick", "newick"⟩,
+  ⟨"gotree reformat", "input-format", "f", true, 0, "string", "newick", "newick"⟩,
+  ⟨"gotree reformat", "output", "o", true, 1, "string", "stdout", "stdout"⟩]
+
+/-- nothing is wrong with the registrations (same default, every flag holds it) … -/
+theorem tableOK_pinnedF87 : tableOK pinnedF87 = true := by decide
+
+/-- … but `reformat` sees two flags on variable 0, and `--format nexus --input-format newick` reads
+    "newick" where `--format nexus` reads "nexus": the documented default spelled out is not "omitted" -/
+theorem noAlias_pinnedF87_fails :
+    noAliasInCommand pinnedF87 = false ∧
+    reads (atRun pinnedF87 [(⟨"gotree", "format", "", true, 0, "string", "newick", "newick"⟩, "nexus"),
+                            (⟨"gotree reformat", "input-format", "f", true, 0, "string", "newick", "newick"⟩, "newick")]) 0 = some "newick" ∧
+    reads (atRun pinnedF87 [(⟨"gotree", "format", "", true, 0, "string", "newick", "newick"⟩, "nexus")]) 0 = some "nexus" := by
+  decide +kernel
 
 /-! ### pinned witness of finding F47: `download itol --format` hides the root's `--format` -/
 
